@@ -46,6 +46,10 @@ def check(repo: Repo, R) -> None:
     from . import c06 as _c06
     R.run(_c06.check, repo, shared.Retag(R, lambda r: "C11.4-order-preserved" if r.startswith("C06.3") else None,
                                         "the importer reads port order from the `signals` list: written in another order than `ports` (namespace order differs once a name was re-used), re-imported modules have their ports permuted, and positional netlists swap nets"))
+    # connection order: the importer connects in the package's order through connect() and leaves `conns` alone afterwards
+    R.run(shared.owner_only_writes, repo, shared.Retag(R, lambda r, k: "C11.4-order-preserved" if k.startswith(F_IMPORT) else None,
+                                                      "the importer rebuilds an instance's `conns` (in port-list order, say): re-exported instances list their connections in another order than the package had, and the connected objects keep no record of the port"),
+          "C04.2-owner-only-writes", why="")
     R.floor("C11.1-inverse-tables", 6)
     R.floor("C11.2-field-coverage", 10)
     R.floor("C11.3-variant-coverage", 4)
@@ -345,6 +349,7 @@ def absent_means_none(repo: Repo, R):
                     break
                 chain.append(callee)
                 v = shared.prov(fi.node, v.args[-1], depth=1) if v.args else None
+            by_hdl21_name = []
             for callee in chain:
                 rets = shared.returns_of(callee.node)
                 rv = shared.prov(callee.node, rets[0].value) if len(rets) == 1 and rets[0].value is not None else None
@@ -353,11 +358,19 @@ def absent_means_none(repo: Repo, R):
                     dc = rv.values[0]
                     if isinstance(dc.value, ast.Constant) and dc.value.value is None and ast.unparse(dc.generators[0].iter).endswith(".Params.__params__") and isinstance(dc.key, ast.Name):
                         fills = True
+                        by_hdl21_name.append(callee)
                 # (b) gives strings destined for Scalar parameters their Literal type back
                 if isinstance(rv, ast.DictComp) and isinstance(rv.value, ast.IfExp):
                     t_ = ast.unparse(rv.value.test)
                     if ast.unparse(rv.value.body).startswith("Literal(") and "isinstance(" in t_ and ", str)" in t_ and "Scalar" in ast.unparse(callee.node):
                         wraps = True
+                        by_hdl21_name.append(callee)
+            # helpers that select by the Hdl21 parameter names see the dictionary after the VLSIR names were translated
+            if fp in chain:
+                early = [h_.name for h_ in by_hdl21_name if chain.index(h_) > chain.index(fp)]
+                R.check(not early, rule, key_of(fi, f"renamed-before-selected::{ast.unparse(spread[0])[:40]}"), fi.at(c),
+                        f"`{how}`: the VLSIR parameter names are translated before anything is selected by Hdl21 parameter name" + (f" — NOT so for {early}" if early else ""),
+                        why="Vpulse(delay=Literal('1e-11')) comes back as the number 1e-11: under its VLSIR name `td` the value is not recognised as destined for a Scalar")
         R.check(fills, rule, key_of(fi, f"unlisted-is-none::{ast.unparse(spread[0])[:40] if spread else how}"), fi.at(c),
                 f"`{how}`: parameters the package does not list are passed as None (laid under the listed ones): {fills}",
                 why="Vdc(dc=None) comes back as dc=0: exporting the imported module again writes a parameter the package did not have")
